@@ -192,10 +192,10 @@ func refEval(bc basisCase, coeffs []complex128, x complex128) complex128 {
 //	kappa rounding of one encoded coefficient:        Embed/Δlo
 //	Δlo   lower bound on every intermediate scale:  Δ/4 (input scale within 2% of Δ, degree <= 31, primes within 2^-20 of Δ)
 //
-// Power k is some product tree; whatever the tree,
+// Power k is the product of powers a and b = polynomial.SplitDegree(k) (documented public rule):
 //
-//	monomial  E[k] <= max over a+b=k of  E[a]+E[b]+E[a]E[b]+mu
-//	Chebyshev E[k] <= max over a+b=k of  2(E[a]+E[b]+E[a]E[b]+mu) + E[a-b]        (T_k = 2 T_a T_b - T_|a-b|)
+//	monomial  E[k] <= E[a]+E[b]+E[a]E[b]+mu
+//	Chebyshev E[k] <= 2(E[a]+E[b]+E[a]E[b]+mu) + E[a-b]        (T_k = 2 T_a T_b - T_|a-b|)
 //
 // The result is a sum of terms coefficient × (one baby power) × (giant powers X^(2^m)), with a rescaling
 // after each product; the Chebyshev factorisation p = q*T_n + r replaces coefficients by sums of at most 3
@@ -219,14 +219,18 @@ func polyModel(p rlwe.Parameters, cheb bool, degree int, S float64, rho, delta f
 		E[1] = rho
 	}
 	for k := 2; k <= degree; k++ {
-		for a := (k + 1) / 2; a < k; a++ {
-			b := k - a
-			e := E[a] + E[b] + E[a]*E[b] + mu
-			if cheb {
-				e = 2*e + E[a-b]
-			}
-			E[k] = math.Max(E[k], e)
+		// the product tree of the power basis is the documented one: polynomial.SplitDegree
+		// ("a + b = n such that |a-b| is minimized"); the worst case over ALL splits grows like 2.4^k
+		// (chains a = k-1, b = 1) and would make the bound meaningless above degree ~20.
+		a, b := polynomial.SplitDegree(k)
+		if a < b {
+			a, b = b, a
 		}
+		e := E[a] + E[b] + E[a]*E[b] + mu
+		if cheb {
+			e = 2*e + E[a-b]
+		}
+		E[k] = e
 	}
 	L := float64(bitsLen(degree))
 	W := S
